@@ -297,3 +297,51 @@ Theorem C13_source_cover_constraint_image_sizing n cw ch r :
     [Py.VNum cw; Py.VNum ch; G.voq r] = G.vres (cover_sizing cw ch r).
 Proof. exact (G.gen_cover_value n cw ch r). Qed.
 Print Assumptions C13_source_cover_constraint_image_sizing.
+
+(* ---- replaced_box_width / replaced_box_height (the functions under the handle_min_max_* decorators) and
+   min_max_auto_replaced of weasyprint/layout/replaced.py REGENERATED from the source on every run
+   (gen/GenReplacedBox.v) compute exactly the models used above, for every 'auto' / number pattern of box.width and
+   box.height, every None / number pattern of the intrinsic size and every finite min/max (float('inf') is outside the
+   value domain of base/Py.v), and raise exactly when the model does.  c: what the calls outside the translated
+   subset answer - image.get_intrinsic_size(image_resolution, font_size) answers the triple i; the (decorated)
+   block_level_width called at point 3 of 10.3.2 leaves the box with the width `fill`.
+   GM.sets_size p: box.width == fst p, box.height == snd p;  GU.sets_width / GU.sets_height: the attribute set. *)
+Require WV.gen.GenReplacedBox WV.proofs.C13_gen_tac WV.proofs.C13_gen_minmax WV.proofs.C13_gen_used.
+Module GT := WV.proofs.C13_gen_tac.
+Module GM := WV.proofs.C13_gen_minmax.
+Module GU := WV.proofs.C13_gen_used.
+
+Theorem C13_source_min_max_auto_replaced (c : string -> list Py.val -> Py.val) imgf rs fs i w h minw minh maxw maxh :
+  c ".get_intrinsic_size"%string [Py.VObj imgf; Py.VNum rs; Py.VNum fs] = GT.vintr i ->
+  Py.run (Py.with_calls Py.real_ops c) GenReplacedBox.min_max_auto_replaced_body
+    [("box"%string, GM.mbox w h minw minh maxw maxh imgf rs fs)]
+    (GM.sets_size (mmar (ir i) w h minw minh (Some maxw) (Some maxh))) (fun _ => False).
+Proof. exact (GM.gen_min_max_auto_replaced_real c imgf rs fs i w h minw minh maxw maxh). Qed.
+Print Assumptions C13_source_min_max_auto_replaced.
+
+Theorem C13_source_replaced_box_height (c : string -> list Py.val -> Py.val) imgf rs fs i bw bh :
+  c ".get_intrinsic_size"%string [Py.VObj imgf; Py.VNum rs; Py.VNum fs] = GT.vintr i ->
+  Py.run (Py.with_calls Py.real_ops c) GenReplacedBox.replaced_box_height_body
+    [("box"%string, GU.hbox bw bh imgf rs fs)]
+    (GU.sets_height (rbh_raw_hv bw i bh)) (GU.raises (rbh_raw_hv bw i bh)).
+Proof. exact (GU.gen_replaced_box_height_real c imgf rs fs i bw bh). Qed.
+Print Assumptions C13_source_replaced_box_height.
+
+Theorem C13_source_replaced_box_width (c : string -> list Py.val -> Py.val) imgf rs fs cbf i bw bh minh maxh fill :
+  c ".get_intrinsic_size"%string [Py.VObj imgf; Py.VNum rs; Py.VNum fs] = GT.vintr i ->
+  c "block_level_width"%string [GU.wbox bw bh minh maxh imgf rs fs; Py.VObj cbf]
+    = Py.VList [Py.VNone; GU.wbox (Some fill) bh minh maxh imgf rs fs] ->
+  Py.run (Py.with_calls Py.real_ops c) GenReplacedBox.replaced_box_width_body
+    [("box"%string, GU.wbox bw bh minh maxh imgf rs fs); ("containing_block"%string, Py.VObj cbf)]
+    (GU.sets_width (rbw_raw bh i fill minh (Some maxh) bw)) (GU.raises (rbw_raw bh i fill minh (Some maxh) bw)).
+Proof. exact (GU.gen_replaced_box_width_real c imgf rs fs cbf i bw bh minh maxh fill). Qed.
+Print Assumptions C13_source_replaced_box_width.
+
+(* max-width / max-height: none (float('inf') in the implementation, None in the model): the model of
+   min_max_auto_replaced at "no maximum" is the model at every large enough number, where the theorem above ties it
+   to the source *)
+Theorem C13_source_min_max_no_maximum r w h minw minh :
+  exists M0, forall Mw Mh, (M0 <= Mw)%Q -> (M0 <= Mh)%Q ->
+    GM.qeq2 (mmar r w h minw minh None None) (mmar r w h minw minh (Some Mw) (Some Mh)).
+Proof. exact (GM.mmar_no_max r w h minw minh). Qed.
+Print Assumptions C13_source_min_max_no_maximum.
